@@ -5,6 +5,7 @@ package osm
 import (
 	"bytes"
 	"encoding/xml"
+	"time"
 )
 
 // optional header string: empty or a one-byte symbolic string
@@ -204,7 +205,8 @@ func VerifH_C04_discussionAndDate() {
 	n := vRange("comments", 0, 2)
 	d := ChangesetDiscussion{}
 	for i := 0; i < n; i++ {
-		d.Comments = append(d.Comments, &ChangesetComment{User: "u", UserID: UserID(i + 1), Text: "t"})
+		d.Comments = append(d.Comments, &ChangesetComment{User: "u", UserID: UserID(i + 1), Text: "t",
+			Timestamp: time.Date(2012, 1, 2, 3, 4, 5+i, 123456789, time.UTC)})
 	}
 	buf := &bytes.Buffer{}
 	enc := xml.NewEncoder(buf)
@@ -218,6 +220,19 @@ func VerifH_C04_discussionAndDate() {
 		vAssert(len(evs) == 1+n && evs[0].Name == "discussion", "discussion-element")
 		for i := 1; i < len(evs); i++ {
 			vAssert(evs[i].Name == "comment" && evs[i].Depth == 1, "comment-elements")
+			// whatever writes the attributes (the reflection encoder, outside this check, or
+			// hand-written code) has to write what the decoder reads back as the same value
+			c := d.Comments[i-1]
+			for _, a := range evs[i].Attrs {
+				switch a.Name {
+				case "date":
+					vAssert(a.Value == c.Timestamp.Format(time.RFC3339Nano), "~comment-date-keeps-the-instant")
+				case "uid":
+					vAssert(a.Value == vDec(int64(c.UserID)), "~comment-uid")
+				case "user":
+					vAssert(a.Value == c.User, "~comment-user")
+				}
+			}
 		}
 	}
 }
